@@ -14,12 +14,12 @@ struct CallRec { int unit; int draw; std::vector<double> args; };
 struct Monitor {
   double (*source)(size_t pos, void* ctx) = nullptr; void* ctx=nullptr;
   size_t next = 0; size_t horizon = 100000; bool stub_bb=false; long bb_calls=0;
-  double min_margin = 1e300; int min_margin_line = 0; double min_qmargin = 1e300; double min_smargin = 1e300; double min_tmargin = 1e300; long ncmp = 0;
+  double min_margin = 1e300; int min_margin_line = 0; double min_qmargin = 1e300; double min_smargin = 1e300; double min_tmargin = 1e300; long clamp_fired = 0; long ncmp = 0;
   std::vector<int> draw_sites; std::vector<unsigned> draw_ctx; std::vector<double> draw_vals;
   std::vector<CmpRec> cmps; bool log_cmps=false; int log_draw=-1;
   std::vector<CallRec> calls; bool log_calls=false;
   int stack[64]; int sp=0;
-  void reset(){ next=0; min_margin=1e300; min_qmargin=1e300; min_smargin=1e300; min_tmargin=1e300; ncmp=0; draw_sites.clear(); draw_ctx.clear(); draw_vals.clear(); cmps.clear(); calls.clear(); sp=0; }
+  void reset(){ next=0; min_margin=1e300; min_qmargin=1e300; min_smargin=1e300; min_tmargin=1e300; clamp_fired=0; ncmp=0; draw_sites.clear(); draw_ctx.clear(); draw_vals.clear(); cmps.clear(); calls.clear(); sp=0; }
 };
 struct HorizonExceeded {};
 extern Monitor mon;
@@ -45,7 +45,7 @@ inline bool TCMP_LT(R a,R b,int l){ tmargin(a,b,l); return a<b; } inline bool TC
 inline bool TCMP_GT(R a,R b,int l){ tmargin(a,b,l); return a>b; } inline bool TCMP_GE(R a,R b,int l){ tmargin(a,b,l); return a>=b; }
 inline bool TCMP_EQ(R a,R b,int){ return a==b; } inline bool TCMP_NE(R a,R b,int){ return a!=b; }
 inline void cmargin(R a, R b,int line){ mon.ncmp++; if (mon.log_cmps && (int)mon.next-1==mon.log_draw) mon.cmps.push_back({(int)mon.next-1,line,a,b,2}); }
-inline bool CCMP_LT(R a,R b,int l){ cmargin(a,b,l); return a<b; } inline bool CCMP_LE(R a,R b,int l){ cmargin(a,b,l); return a<=b; }
+inline bool CCMP_LT(R a,R b,int l){ cmargin(a,b,l); if (a<b) mon.clamp_fired++; return a<b; } inline bool CCMP_LE(R a,R b,int l){ cmargin(a,b,l); return a<=b; }
 inline bool CCMP_GT(R a,R b,int l){ cmargin(a,b,l); return a>b; } inline bool CCMP_GE(R a,R b,int l){ cmargin(a,b,l); return a>=b; }
 inline bool CCMP_EQ(R a,R b,int){ return a==b; } inline bool CCMP_NE(R a,R b,int){ return a!=b; }
 inline bool CMP_EQ(R a,R b,int){ return a==b; }
